@@ -10,15 +10,16 @@ Import ListNotations.
 Definition entries_of (st : sset) : list (ref * root) :=
   flat_map (fun ke => match snd ke with Linked r => [(fst ke, r)] | Placeholder => [] end) st.
 
-(* The property at full strength: for EVERY descriptor set, list of packages the image names and order
+(* The property at full strength: for EVERY descriptor set, services / topics of the image (addStructure
+   runs over them first), list of packages the image names and order
    in which the selected files are visited, if structure.APIFromImage succeeds with the API [api]
    (packages and sub-packages holding terms of the source form) then PackageSetFromSourceAPI on it
    succeeds, every schema of every package / sub-package is found again under the name it is filed
    under and exports to exactly the same form, nothing else is in the rebuilt set and every reference
    is resolved. *)
 Definition C15_full_statement : Prop :=
-  forall (D : desc) (W : list str) (fs : list filed) (api : xapi),
-    api_from_image D W fs = Ok api ->
+  forall (D : desc) (svcs : list svcd) (W : list str) (fs : list filed) (api : xapi),
+    api_from_image D svcs W fs = Ok api ->
     exists S', import_packages api = ROk S' /\
       (forall k x, In (k, x) (api_entries api) -> exists r', lookup S' k = Some (Linked r') /\ export_root r' = x) /\
       (forall k, ~ In k (map fst (api_entries api)) -> lookup S' k = None) /\
@@ -104,8 +105,8 @@ Proof. exact route_all_entries. Qed.
 Print Assumptions C15_routing_keeps_every_entry.
 
 (* ---- the full statement under the hypothesis wf_keys *)
-Theorem C15_api_roundtrip : forall D W fs api,
-  wf_keys D -> api_from_image D W fs = Ok api ->
+Theorem C15_api_roundtrip : forall D svcs W fs api,
+  wf_keys D -> api_from_image D svcs W fs = Ok api ->
   exists S', import_packages api = ROk S' /\
     (forall k x, In (k, x) (api_entries api) -> exists r', lookup S' k = Some (Linked r') /\ export_root r' = x) /\
     (forall k, ~ In k (map fst (api_entries api)) -> lookup S' k = None) /\
@@ -113,11 +114,20 @@ Theorem C15_api_roundtrip : forall D W fs api,
 Proof. exact api_roundtrip. Qed.
 Print Assumptions C15_api_roundtrip.
 
-(* and APIFromImage does succeed on every successful reflection whose package names split *)
-Theorem C15_api_from_image_ok : forall D W fs S,
-  wf_keys D -> reflect D fs = Ok S -> packages_split S -> exists api, api_from_image D W fs = Ok api.
+(* and APIFromImage does succeed when addStructure accepts the services and topics of the image, the
+   reflection succeeds and every package name splits *)
+Theorem C15_api_from_image_ok : forall D svcs W fs S apiS,
+  wf_keys D -> add_structure W (api_init W) svcs = ROk apiS ->
+  reflect D fs = Ok S -> packages_split S -> exists api, api_from_image D svcs W fs = Ok api.
 Proof. exact api_from_image_ok. Qed.
 Print Assumptions C15_api_from_image_ok.
+
+(* addStructure files no schema: after it the API holds the listed packages with (empty) sub-packages
+   for their services and topics, which is all the schema round trip sees of it *)
+Theorem C15_structure_files_no_schema : forall W svcs apiS,
+  add_structure W (api_init W) svcs = ROk apiS -> api_entries apiS = [].
+Proof. exact structure_files_no_schema. Qed.
+Print Assumptions C15_structure_files_no_schema.
 
 (* ---- the generated copy tables carry, for every member of every composite literal of the export and
    import functions, the source text of its value; each is the member the model copies (Export.v
